@@ -18,7 +18,7 @@ from .. import syscheck as sc
 
 CLAUSES = {"LastCopy", "NoLoss", "NoInventedContent"}
 GAPS = ["I", "I1", "IS", "SI", "LSR", "RSL"]
-TAILS = ["LS4R", "RS4L"]      # tail-only schedules: several sync steps on one side's events before the other side's arrive
+TAILS = ["LSxR", "RSxL"]      # tail-only schedules: several sync steps on one side's events before the other side's arrive
 RESOLVERS = [None, ["pick", 0, True], ["pick", 1, True], ["merge", False], ["raise"]]
 
 
@@ -33,6 +33,22 @@ def plan(ctx):
                       ("std2", "std", 2, None, None), ("conf5", "conf", 5, "sim", 4000),
                       ("conf3tail", "conf", 3, "tail", None), ("two3tail", "two", 3, "tail", 20000)],
                 corrupt=6000)
+
+
+def shape(case, trace=None, line=None):
+    """Names the one history shape behind the listed finding C02-MOVED-SOURCE-RECREATED-TARGET-TAKEN (identification of a
+    known finding only - the verdict itself is TLC's): one side moves a file P -> Q and later puts a new file at P, the other
+    side puts a file at Q."""
+    ops = [(t[1], t[2]) for t in case["tokens"] if t[0] == "U"]
+    for i, (s, op) in enumerate(ops):
+        if op[0] != "rename":
+            continue
+        p_, q_ = op[1], op[2]
+        again = any(s2 == s and op2[0] == "create" and op2[1] == p_ for (s2, op2) in ops[i + 1:])
+        taken = any(s2 != s and ((op2[0] == "create" and op2[1] == q_) or (op2[0] == "rename" and op2[2] == q_)) for (s2, op2) in ops)
+        if again and taken:
+            return {"shape": "MOVED_SOURCE_RECREATED_TARGET_TAKEN"}
+    return {"shape": ""}
 
 
 def with_resolvers(cases, resolvers):
@@ -67,7 +83,7 @@ def run(ctx):
     ctx.assume("MockProvider flavours are the environment (bound to the provider contract by C16)", "virtual clock; ageing 0",
                "content versions are identified by their bytes; every user write uses fresh bytes")
     ctx.model_check("SysMC", "MC_SysMC.cfg", "design: LastCopy/ContentOK guards make NoLoss inductive for any engine", workers=4)
-    sc.run_exemplars(ctx, CLAUSES)
+    sc.run_exemplars(ctx, CLAUSES, extra_sig=shape)
     p = plan(ctx)
     exhaustive = True
     pool = []
@@ -81,9 +97,10 @@ def run(ctx):
         cases, full = sc.slice_cases(cases, limit, ctx.seed * 32452843 + nops)
         exhaustive = exhaustive and full
         pool += cases
-        sc.run_family(ctx, sc.with_flavors(with_resolvers(cases, p["resolvers"]), p["flavors"]), "conflict family %s" % name, CLAUSES)
+        res = p["resolvers"] if not (mode == "tail" and ctx.tier == "quick") else [None]
+        sc.run_family(ctx, sc.with_flavors(with_resolvers(cases, res), p["flavors"]), "conflict family %s" % name, CLAUSES, extra_sig=shape)
     cc, _ = sc.slice_cases(corrupt_cases([c for c in pool if c["base"] == "std"]), p["corrupt"], ctx.seed + 17)
-    sc.run_family(ctx, sc.with_flavors(cc, p["flavors"]), "corrupt-read placements", CLAUSES)
+    sc.run_family(ctx, sc.with_flavors(cc, p["flavors"]), "corrupt-read placements", CLAUSES, extra_sig=shape)
     ctx.cov["exhaustive"] = exhaustive
 
 
